@@ -78,7 +78,19 @@ func NewSecureAsk[Pub any](m map[string]DynSecureAskSwarm[Pub]) p2p.SecureAskSwa
 			logctx.Errorln(ctx, err)
 		}
 	}()
-	return p2p.ComposeSecureAskSwarm[Addr, Pub](ms, ma, msec)
+	return p2p.ComposeSecureAskSwarm[Addr, Pub](askCloser{multiSwarm: ms, ma: ma}, ma, msec)
+}
+
+// askCloser makes Close of the composed swarm also close the ask hub.
+type askCloser struct {
+	*multiSwarm
+	ma *multiAsker
+}
+
+func (ac askCloser) Close() error {
+	err := ac.multiSwarm.Close()
+	ac.ma.asks.CloseWithError(p2p.ErrClosed)
+	return err
 }
 
 type multiSwarm struct {
